@@ -54,11 +54,42 @@ def stringify(v: Any) -> str:
     return str(v)
 
 
-def format_filter(text: str, variables: Mapping[str, Any]) -> str:
-    """R-subst + R-missing for a filter message (single pass)."""
-    return RE_PLACEHOLDER.sub(
-        lambda mo: stringify(variables[mo.group(1)]) if mo.group(1) in variables else "", text
-    )
+RE_PERCENT_RUN = re.compile(r"(%+)(?:\((\w+)\)s)?")
+
+
+def format_filter(text: str, variables: Mapping[str, Any]) -> frozenset[str]:
+    """R-subst + R-missing for a filter message (single pass over the message text; a
+    substituted value is inserted verbatim and never re-scanned).  Returns the set of
+    accepted outputs.
+
+    R-digraph: the statement says "unchanged" (``%%`` stays ``%%``) while the placeholder
+    syntax is documented as "percent-style formatting" (docs/babel.md), where ``%%`` is an
+    escaped ``%``: both readings of the digraph are accepted, consistently per message.
+    Where a run of k percent signs directly precedes ``(name)s`` the run can be paired up in
+    two ways -- (a) left to right like printf, so for even k the ``(name)s`` is plain text,
+    (b) the placeholder claims the adjacent ``%`` first and is always substituted; for odd k
+    both agree that the placeholder is substituted.  Either pairing is accepted (consistently
+    per message).  Without a ``%%`` in the message all four readings coincide.
+    """
+
+    def value(name: str) -> str:
+        return stringify(variables[name]) if name in variables else ""
+
+    out = set()
+    for pairing in ("printf", "placeholder-first"):
+        for pair_out in ("%%", "%"):
+
+            def sub(mo: "re.Match[str]") -> str:
+                k, name = len(mo.group(1)), mo.group(2)
+                if name is None:
+                    return pair_out * (k // 2) + "%" * (k % 2)
+                if pairing == "printf" and k % 2 == 0:
+                    return pair_out * (k // 2) + "(" + name + ")s"
+                rest = k - 1
+                return pair_out * (rest // 2) + "%" * (rest % 2) + value(name)
+
+            out.add(RE_PERCENT_RUN.sub(sub, text))
+    return frozenset(out)
 
 
 def format_tag(body: str, variables: Mapping[str, Any]) -> frozenset[str]:
@@ -81,6 +112,10 @@ def format_tag(body: str, variables: Mapping[str, Any]) -> frozenset[str]:
 # -- input features (used for non-triviality and for finding signatures) ------------
 def has_placeholder(text: str) -> bool:
     return RE_PLACEHOLDER.search(text) is not None
+
+
+def has_percent_digraph(text: str) -> bool:
+    return "%%" in text
 
 
 def has_bare_percent(text: str) -> bool:
